@@ -207,15 +207,22 @@ func VerifC11_precedence() {
 			rest += "." + l
 		}
 	}
-	// request path: "" or "/" or 1..ELEMS elements of one symbolic byte (not '/'), optional trailing slash
+	// request path: "" or "/" or 1..ELEMS elements of one symbolic byte (the last one 1..ELEN bytes; not '/'),
+	// optional trailing slash
 	path := ""
 	e := vrt.Range("elems", -1, vrt.Param("ELEMS", 3))
 	if e == 0 {
 		path = "/"
 	}
 	for i := 0; i < e; i++ {
-		c := vrt.Str("elem", 1)
-		vrt.Assume(c[0] != '/')
+		n := 1
+		if i == e-1 {
+			n = vrt.Range("last-elem-len", 1, vrt.Param("ELEN", 2)) // "/p/qx" must not match "/p/q*"
+		}
+		c := vrt.Str("elem", n)
+		for j := 0; j < n; j++ {
+			vrt.Assume(c[j] != '/')
+		}
 		path += "/" + c
 	}
 	if e > 0 && vrt.Choose("trailing-slash", 2) == 1 {
